@@ -2247,3 +2247,488 @@ def c14_rules(ctx):
             ctx.flows(f, p, 1, from_arg='required_order')
         for p in ff:
             ctx.flows(f, p, 1, from_arg='required_order')
+
+
+# ------------------------------------------------------------------------------------ C10
+def c10_rules(ctx):
+    ctx.set_rule('C10.R1', 'one checksum definition: writer and verifier use the same functions')
+    ctx.callers_eq('page_manager::xxh3_checksum', {'btree_base::leaf_checksum', 'btree_base::branch_checksum', 'TransactionHeader::to_bytes', 'TransactionHeader::from_bytes', 'U64GroupedBitmap::xxh3_hash'})
+    ctx.callers_eq('btree_base::leaf_checksum', {'UntypedBtreeMut::finalize_dirty_checksums_helper', 'RawBtree::verify_checksum_helper'})
+    ctx.callers_eq('btree_base::branch_checksum', {'UntypedBtreeMut::finalize_dirty_checksums_helper', 'RawBtree::verify_checksum_helper'})
+    f = ctx.fn('page_manager::xxh3_checksum')
+    if f is not None:
+        h = ctx.sites(f, 'hash128_with_seed', exact=1)
+        for p in h:
+            ctx.const_arg(f, p, 1, 0, 'seed 0')
+            ctx.flows(f, p, 0, from_arg='data')
+    for nm in ('leaf_checksum', 'branch_checksum'):
+        f = ctx.fn('btree_base::' + nm)
+        if f is not None:
+            x = ctx.sites(f, 'page_manager::xxh3_checksum', exact=1)
+            ctx.must_pass(f, x, what='%s succeeds only by hashing the page' % nm)
+    ctx.set_rule('C10.R2', 'bottom-up finalisation over uncommitted pages only')
+    f = ctx.fn('UntypedBtreeMut::finalize_dirty_checksums_helper')
+    if f is not None:
+        rec = ctx.sites(f, 'UntypedBtreeMut::finalize_dirty_checksums_helper', exact=1)
+        ctx.guarded(f, rec, [true_of(PA + '::uncommitted')], 'recursion only into uncommitted children')
+        wc = ctx.sites(f, 'BranchMutator::write_child_page', exact=1)
+        bc = ctx.sites(f, 'btree_base::branch_checksum', exact=1)
+        lc = ctx.sites(f, 'btree_base::leaf_checksum', exact=1)
+        if bc and rec:
+            r0 = core.reach(f, start=(bc[0].bb, bc[0].idx))
+            ctx.check(rec[0].bb not in r0['term'], 'order|%s|recursion-after-hash' % f.path, 'no child is finalized after the branch checksum was computed', f, bc[0].line)
+        # the branch hash is taken after the child checksums were written: no write_child_page reachable after branch_checksum
+        if bc and wc:
+            r = core.reach(f, start=(bc[0].bb, bc[0].idx))
+            ctx.check(wc[0].bb not in r['term'], 'order|%s|write-after-hash' % f.path, 'no child pointer is rewritten after the branch checksum was computed', f, wc[0].line)
+        for p in wc:
+            ctx.flows(f, p, 3, from_call='UntypedBtreeMut::finalize_dirty_checksums_helper', what='stored child checksum is the freshly computed one')
+        gm = ctx.sites(f, PA + '::get_page_mut', exact=1)
+        ctx.guarded(f, gm, [true_of(PA + '::uncommitted')])
+        ctx.must_pass(f, lc + bc, what='every success path computes a leaf or branch checksum')
+    f = ctx.fn('UntypedBtreeMut::finalize_dirty_checksums')
+    if f is not None:
+        h = ctx.sites(f, 'UntypedBtreeMut::finalize_dirty_checksums_helper', exact=1)
+        ctx.guarded(f, h, [true_of(PA + '::uncommitted')], 'clean roots are left alone')
+        # dirty root => helper not skippable
+        e_f = core.guard_edges(f, [false_of(PA + '::uncommitted'), Guard(place='self.root', vals={'None'}), Guard(place='root', vals={'None'})])
+        ctx.must_pass(f, h, extra_cut_edges=e_f, what='an uncommitted root is always re-hashed')
+    ctx.set_rule('C10.R3', 'table roots are finalized and flushed into the catalog before the catalog is checksummed')
+    f = ctx.fn('TableTreeMut::flush_inner')
+    if f is not None:
+        a = ctx.sites(f, 'TableTreeMut::flush_table_root_updates', exact=1)
+        b = ctx.sites(f, 'TableTreeMut::finalize_dirty_checksums', exact=1)
+        ctx.order(f, a, b)
+        ctx.guarded(f, b, [ok('TableTreeMut::flush_table_root_updates')])
+        ctx.must_pass(f, b)
+    f = ctx.fn('TableTreeMut::flush_and_close')
+    if f is not None:
+        fi = ctx.sites(f, 'TableTreeMut::flush_inner', exact=1)
+        ctx.must_pass(f, fi, what='flush_and_close always flushes')
+        # the Ok result carries flush_inner's header
+    f = ctx.fn('TableTreeMut::flush_table_root_updates')
+    if f is not None:
+        ins = ctx.sites(f, 'BtreeMut::insert', exact=1)
+        fa = ctx.sites(f, 'UntypedBtreeMut::finalize_dirty_checksums', exact=1)
+        fb = ctx.sites(f, 'multimap_btree::finalize_tree_and_subtree_checksums', exact=1)
+        ctx.guarded(f, ins, [ok('UntypedBtreeMut::finalize_dirty_checksums'), ok('multimap_btree::finalize_tree_and_subtree_checksums')], 'a definition is written only after its tree (and subtrees) were finalized')
+        # per loop iteration: from the loop head (take of pending updates iterator next) -> insert must pass one of the finalizers
+        nx = ctx.sites(f, 'Iterator::next', exact=1)
+        if nx:
+            ctx.order(f, fa + fb, ins, 'no insert without a finalize in the same iteration', start=nx[0])
+        for p in fa:
+            pass
+        tk = ctx.sites(f, 'mem::take', exact=1)
+    for nm in ('open_table_and_flush_table_root', 'create_table_and_flush_table_root'):
+        f = ctx.fn('TableTreeMut::' + nm)
+        if f is not None:
+            fd = ctx.sites(f, 'BtreeMut::finalize_dirty_checksums', exact=1)
+            ii = ctx.sites(f, 'BtreeMut::insert_inplace', exact=1)
+            ctx.guarded(f, ii, [ok('BtreeMut::finalize_dirty_checksums')], 'root flushed in place only after the table checksums were finalized')
+            ctx.must_pass(f, ii, what='the table root always reaches the catalog')
+            as_ = [c for c in f.calls if c.matches('BTreeMap::is_empty')]
+    f = ctx.fn('multimap_btree::finalize_tree_and_subtree_checksums')
+    if f is not None:
+        dv = ctx.sites(f, 'UntypedBtreeMut::dirty_leaf_visitor', exact=1)
+        fd = ctx.sites(f, 'UntypedBtreeMut::finalize_dirty_checksums', exact=1)
+        ctx.guarded(f, fd, [ok('UntypedBtreeMut::dirty_leaf_visitor')], 'outer tree finalized only after all dirty subtrees were')
+        ctx.must_pass(f, fd)
+        for cl in f.closures:
+            sub = cl.calls_to('UntypedBtreeMut::finalize_dirty_checksums')
+            if sub:
+                rp = [cpoint(c) for c in cl.calls_to('LeafPageMut::replace_value')]
+                ctx.check(len(rp) == 1, 'floor|%s|replace_value' % cl.path, 'the subtree root is written back into the leaf', cl, cl.line)
+                ctx.guarded(cl, [cpoint(c) for c in sub], [true_of(PA + '::uncommitted')], 'only uncommitted subtrees are re-hashed')
+    ctx.set_rule('C10.R5', 'the slot checksum covers the slot')
+    f = ctx.fn('TransactionHeader::to_bytes')
+    if f is not None:
+        xx = ctx.sites(f, 'page_manager::xxh3_checksum', exact=1)
+        cps = ctx.sites(f, 'copy_from_slice', floor=3)
+        # after the checksum, exactly one copy_from_slice (the checksum itself) and no indexed store
+        if xx:
+            r = core.reach(f, start=(xx[0].bb, xx[0].idx))
+            after = [p for p in cps if p.bb in r['term']]
+            ctx.check(len(after) == 1, 'order|%s|stores-after-checksum' % f.path, 'exactly one slice write (the checksum bytes) happens after the slot checksum is computed (found %d)' % len(after), f, xx[0].line)
+            for p in after:
+                ctx.flows(f, p, 1, from_call='page_manager::xxh3_checksum')
+            st_after = 0
+            for bb in r['term']:
+                for j, s_ in enumerate(f.blocks[bb]['s']):
+                    if s_[0] == 'a' and s_[1][1] and any(x.startswith('[') for x in s_[1][1]) and f.local_name(s_[1][0]) == 'result':
+                        if bb != xx[0].bb:
+                            st_after += 1
+            ctx.check(st_after == 0, 'order|%s|byte-stores-after-checksum' % f.path, 'no byte of the slot is stored after its checksum was computed', f, xx[0].line)
+    for c in ('tree_store::page_store::header::TRANSACTION_SIZE', 'tree_store::page_store::header::SLOT_CHECKSUM_OFFSET'):
+        ctx.check(c in ctx.facts.consts and ctx.facts.consts[c]['v'] is not None, 'const|%s' % c, 'constant %s evaluated: %s' % (c, ctx.facts.consts.get(c, {}).get('v')))
+    if all(c in ctx.facts.consts for c in ('tree_store::page_store::header::TRANSACTION_SIZE', 'tree_store::page_store::header::SLOT_CHECKSUM_OFFSET')):
+        ts = ctx.facts.consts['tree_store::page_store::header::TRANSACTION_SIZE']['v']
+        so = ctx.facts.consts['tree_store::page_store::header::SLOT_CHECKSUM_OFFSET']['v']
+        lf = ctx.facts.consts.get('tree_store::page_store::header::TRANSACTION_LAST_FIELD', {}).get('v')
+        ctx.check(so == ts - 16, 'const|slot-checksum-offset', 'SLOT_CHECKSUM_OFFSET == TRANSACTION_SIZE - 16')
+        ctx.check(lf is not None and lf <= so, 'const|fields-before-checksum', 'every slot field ends before the checksum (TRANSACTION_LAST_FIELD=%s <= %s)' % (lf, so))
+    ctx.set_rule('C10.R6', 'relocation re-defers checksums')
+    deferred = ctx.facts.consts.get('tree_store::btree_base::DEFERRED', {}).get('v')
+    for nm in ('UntypedBtreeMut::relocate_helper', 'multimap_btree::relocate_subtrees'):
+        f = ctx.fn(nm)
+        if f is not None:
+            # every tuple/Some((page, checksum)) returned after a get_page_mut carries DEFERRED
+            gm = ctx.sites(f, PA + '::get_page_mut', exact=1)
+            okk = False
+            for i, b_ in enumerate(f.blocks):
+                for s_ in b_['s']:
+                    if s_[0] == 'a' and s_[2]['k'] == 'agg' and s_[2]['a'] == '(tuple)' and len(s_[2]['o']) == 2:
+                        o = s_[2]['o'][1]
+                        if o[0] == 'k' and len(o) > 3 and o[3] and o[3].endswith('DEFERRED'):
+                            okk = True
+            ctx.check(okk, 'const|%s|DEFERRED' % f.path, 'the moved page is returned with the DEFERRED checksum', f, f.line)
+
+
+# ------------------------------------------------------------------------------------ C12 tree side
+def c12_tree_rules(ctx):
+    ctx.set_rule('C12.R1b', 'every tree of the catalog is verified, per definition kind')
+    f = ctx.fn('TableTree::verify_checksums')
+    if f is not None:
+        mv = ctx.sites(f, 'Btree::verify_checksum', exact=1)
+        rv = ctx.sites(f, 'RawBtree::verify_checksum', exact=1)
+        mm = ctx.sites(f, 'multimap_btree::verify_tree_and_subtree_checksums', exact=1)
+        trues = []
+        for i, b_ in enumerate(f.blocks):
+            for j, s_ in enumerate(b_['s']):
+                if s_[0] == 'a' and s_[2]['k'] == 'agg' and s_[2]['v'] == 'Ok' and s_[2]['o'] and s_[2]['o'][0][0] == 'k' and s_[2]['o'][0][2] is True:
+                    trues.append(Point(f, i, j, 'return Ok(true)', s_[3]))
+        ctx.check(len(trues) == 1, 'floor|%s|ok-true' % f.path, 'one Ok(true) return', f, f.line)
+        ctx.guarded(f, trues, [true_of('Btree::verify_checksum')], 'Ok(true) only if the catalog tree verified')
+        ctx.guarded(f, rv, [Guard(place='definition', vals={'Normal'})])
+        ctx.guarded(f, mm, [Guard(place='definition', vals={'Multimap'})])
+        # from each per-table verification, a false result cannot reach Ok(true)
+        for p, callee in ((rv, 'RawBtree::verify_checksum'), (mm, 'multimap_btree::verify_tree_and_subtree_checksums')):
+            if p:
+                e_t = core.guard_edges(f, [true_of(callee)])
+                r = core.reach(f, start=(p[0].bb, p[0].idx), cut_edges=e_t)
+                # the loop may continue only through the true edge
+                nx = [c for c in f.calls if c.matches('Iterator::next')]
+                ctx.check(all(c.bb not in r['term'] for c in nx) and not any(core.point_reached(f, r, t.bb, t.idx) for t in trues),
+                          'guard|%s|%s-false' % (f.path, callee), 'a table that fails verification ends the walk with false', f, p[0].line)
+        # normal table with a root is always verified: on the Normal arm with Some root, verify not skippable
+        e_skip = core.guard_edges(f, [Guard(place='definition', vals={'Multimap'}), Guard(place='table_root', vals={'None'})])
+        # every definition kind is dispatched: switch on definition discriminant has both variants
+        kinds = set()
+        for bb in range(f.nb):
+            for fs in (core.edge_facts(f, bb) if f.blocks[bb]['t']['k'] == 'sw' else []):
+                for fa in fs:
+                    if fa.kind == 'place' and fa.desc.endswith('definition') and len(fa.vals) == 1:
+                        kinds |= fa.vals
+        ctx.check(kinds == {'Normal', 'Multimap'}, 'exhaustive|%s' % f.path, 'both definition kinds are dispatched (found %s)' % sorted(kinds), f, f.line)
+    f = ctx.fn('multimap_btree::verify_tree_and_subtree_checksums')
+    if f is not None:
+        vs = ctx.sites(f, 'RawBtree::verify_checksum', exact=2)
+        ps = ctx.sites(f, 'multimap_btree::parse_subtree_roots', exact=1)
+        ctx.must_pass(f, ps, extra_cut_edges=core.guard_edges(f, [Guard(place='root', vals={'None'}), Guard(call='Iterator::next', vals={'None'})]), what='subtree roots of every page are parsed') if False else None
+        e_t = core.guard_edges(f, [true_of('RawBtree::verify_checksum')])
+        trues = []
+        for i, b_ in enumerate(f.blocks):
+            for j, s_ in enumerate(b_['s']):
+                if s_[0] == 'a' and s_[2]['k'] == 'agg' and s_[2]['v'] == 'Ok' and s_[2]['o'] and s_[2]['o'][0][0] == 'k' and s_[2]['o'][0][2] is True:
+                    trues.append(Point(f, i, j, 'return Ok(true)', s_[3]))
+        for v in vs:
+            r = core.reach(f, start=(v.bb, v.idx), cut_edges=e_t)
+            ctx.check(not any(core.point_reached(f, r, t.bb, t.idx) for t in trues) and not (ps and ps[0].bb in r['term'] and v.bb != ps[0].bb and False), 'guard|%s|false-propagates' % f.path, 'a failed (sub)tree verification cannot lead to Ok(true)', f, v.line)
+        # with a Some root the outer verification is not skippable
+        e_none = core.guard_edges(f, [Guard(place='root', vals={'None'})])
+        outer = [v for v in vs if ps and v.bb not in core.reach(f, start=(ps[0].bb, ps[0].idx))['term']]
+        ctx.check(len(outer) == 1, 'shape|%s|outer-verify' % f.path, 'one verification of the outer tree precedes the subtree walk', f, f.line)
+    ctx.set_rule('C12.R2', 'no true without a comparison')
+    f = ctx.fn('RawBtree::verify_checksum_helper')
+    if f is not None:
+        lc = ctx.sites(f, 'btree_base::leaf_checksum', exact=1)
+        bc = ctx.sites(f, 'btree_base::branch_checksum', exact=1)
+        rec = ctx.sites(f, 'RawBtree::verify_checksum_helper', exact=1)
+        # `true` results: const true assigned to the match result / Ok(true)
+        trues = []
+        for i, b_ in enumerate(f.blocks):
+            for j, s_ in enumerate(b_['s']):
+                if s_[0] == 'a' and s_[2]['k'] == 'use' and s_[2]['o'][0] == 'k' and s_[2]['o'][2] is True and f.local_ty(s_[1][0]) == 'bool' and not s_[1][1]:
+                    trues.append(Point(f, i, j, 'result = true', s_[3]))
+        ctx.check(len(trues) >= 1, 'floor|%s|true' % f.path, 'a `true` result exists (branch arm)', f, f.line)
+        cb, cp = ctx._cuts(f, lc + bc)
+        r = core.reach(f, cut_blocks=cb)
+        ctx.check(not any(core.point_reached(f, r, t.bb, t.idx) for t in trues), 'must-pass|%s|compare' % f.path, 'no `true` without computing a leaf or branch checksum', f, f.line)
+        # the leaf arm yields the comparison itself
+        eqs = [c for c in f.calls if c.matches(('PartialEq::eq', 'PartialEq::ne'))]
+        cmp_stmts = sum(1 for b_ in f.blocks for s_ in b_['s'] if s_[0] == 'a' and s_[2]['k'] == 'bin' and s_[2]['op'] in ('Eq', 'Ne'))
+        ctx.check(len(eqs) + cmp_stmts >= 2, 'floor|%s|comparisons' % f.path, 'leaf and branch arms each compare expected with computed (found %d)' % (len(eqs) + cmp_stmts), f, f.line)
+        # branch: true only after every child verified: from rec false-edge no true
+        e_t = core.guard_edges(f, [true_of('RawBtree::verify_checksum_helper')])
+        if rec:
+            r = core.reach(f, start=(rec[0].bb, rec[0].idx), cut_edges=e_t)
+            ctx.check(not any(core.point_reached(f, r, t.bb, t.idx) for t in trues), 'guard|%s|child-false' % f.path, 'a child that fails verification makes the parent fail', f, rec[0].line)
+            for p in rec:
+                ctx.flows(f, p, 1, from_call='BranchAccessor::child_page')
+                ctx.flows(f, p, 2, from_call='BranchAccessor::child_checksum')
+        # recursion follows the branch comparison: rec only after branch_checksum
+        ctx.order(f, bc, rec, 'children are visited only after the branch page itself was hashed')
+        # unknown page type => false: the otherwise arm of the type switch assigns false
+    f = ctx.fn('RawBtree::verify_checksum')
+    if f is not None:
+        h = ctx.sites(f, 'RawBtree::verify_checksum_helper', exact=1)
+        e_none = core.guard_edges(f, [Guard(place='self.root', vals={'None'})])
+        ctx.must_pass(f, h, extra_cut_edges=e_none, what='a tree with a root is always walked')
+        for p in h:
+            ctx.flows(f, p, 2, from_arg='self', what='expected checksum comes from the stored header')
+    f = ctx.fn('Btree::verify_checksum')
+    if f is not None:
+        ctx.must_pass(f, ctx.sites(f, 'RawBtree::verify_checksum', exact=1))
+
+
+# ------------------------------------------------------------------------------------ C17
+def c17_rules(ctx):
+    ctx.set_rule('C17.R1', 'no typed handle without the type check, with unchanged generic arguments at every hop')
+    hops = [
+        ('ReadTransaction::open_table', 'TableTree::get_table', ['K', 'V']),
+        ('ReadTransaction::open_multimap_table', 'TableTree::get_table', ['K', 'V']),
+        ('TableNamespace::open_table', 'TableNamespace::inner_open', ['K', 'V']),
+        ('TableNamespace::open_multimap_table', 'TableNamespace::inner_open', ['K', 'V']),
+        ('TableNamespace::inner_open', 'TableTreeMut::get_or_create_table', ['K', 'V']),
+        ('TableTreeMut::get_or_create_table', 'TableTreeMut::get_table', ['K', 'V']),
+        ('TableTreeMut::get_table', 'TableTree::get_table', ['K', 'V']),
+        ('TableTree::get_table', 'InternalTableDefinition::check_match', ['K', 'V']),
+        ('SystemNamespace::open_system_table', 'TableTreeMut::get_or_create_table', ['K', 'V']),
+    ]
+    for caller, callee, ga in hops:
+        f = ctx.fn(caller)
+        if f is None:
+            continue
+        s_ = ctx.sites(f, callee, exact=1)
+        for p in s_:
+            got = [g for g in (p.call.t.get('ga') or []) if not g.startswith("'")]
+            ctx.check(got == ga, 'generic-args|%s|%s' % (f.path, callee), '%s calls %s::<%s> with its own type parameters (found <%s>)' % (caller, callee, ', '.join(ga), ', '.join(got)), f, p.line)
+        ctx.must_pass(f, s_, what='%s always passes %s' % (caller, callee)) if caller not in ('TableTree::get_table',) else None
+    for nm, ctor in (('open_table', 'ReadOnlyTable::new'), ('open_multimap_table', 'ReadOnlyMultimapTable::new')):
+        f = ctx.fn('ReadTransaction::' + nm)
+        if f is not None:
+            c = ctx.sites(f, ctor, exact=1)
+            ctx.guarded(f, c, [ok('TableTree::get_table')], 'typed handle only after get_table::<K,V> returned Ok')
+            got = [g for g in (c[0].call.t.get('ga') or []) if not g.startswith("'")] if c else []
+            ctx.check(got == ['K', 'V'], 'generic-args|%s|ctor' % f.path, 'the handle is built for the same K,V', f, f.line)
+    for nm in ('open_untyped_table', 'open_untyped_multimap_table'):
+        f = ctx.fn('ReadTransaction::' + nm)
+        if f is not None:
+            g = ctx.sites(f, 'TableTree::get_table_untyped', exact=1)
+            ctx.must_pass(f, g)
+    f = ctx.fn('TableTree::get_table')
+    if f is not None:
+        cm = ctx.sites(f, 'InternalTableDefinition::check_match', exact=1)
+        gu = ctx.sites(f, 'TableTree::get_table_untyped', exact=1)
+        # Some(definition) only behind check_match Ok
+        somes = []
+        for i, b_ in enumerate(f.blocks):
+            for j, s2 in enumerate(b_['s']):
+                if s2[0] == 'a' and s2[2]['k'] == 'agg' and s2[2]['v'] == 'Some' and s2[2]['a'].endswith('Option'):
+                    somes.append(Point(f, i, j, 'Some(definition)', s2[3]))
+        ctx.check(len(somes) >= 1, 'floor|%s|some' % f.path, 'get_table returns Some(definition)', f, f.line)
+        ctx.guarded(f, somes, [ok('InternalTableDefinition::check_match')], 'a definition is handed out only after check_match::<K,V> returned Ok')
+    f = ctx.fn('TableTree::get_table_untyped')
+    if f is not None:
+        cm = ctx.sites(f, 'InternalTableDefinition::check_match_untyped', exact=1)
+        somes = []
+        for i, b_ in enumerate(f.blocks):
+            for j, s2 in enumerate(b_['s']):
+                if s2[0] == 'a' and s2[2]['k'] == 'agg' and s2[2]['v'] == 'Some' and s2[2]['a'].endswith('Option'):
+                    somes.append(Point(f, i, j, 'Some(definition)', s2[3]))
+        ctx.guarded(f, somes, [ok('InternalTableDefinition::check_match_untyped')])
+        for p in cm:
+            ctx.flows(f, p, 1, from_arg='table_type')
+    f = ctx.fn('InternalTableDefinition::check_match')
+    if f is not None:
+        cu = ctx.sites(f, 'InternalTableDefinition::check_match_untyped', exact=1)
+        oks = []
+        for i, b_ in enumerate(f.blocks):
+            for j, s2 in enumerate(b_['s']):
+                if s2[0] == 'a' and s2[1][0] == 0 and not s2[1][1] and s2[2]['k'] == 'agg' and s2[2]['v'] == 'Ok':
+                    oks.append(Point(f, i, j, 'return Ok', s2[3]))
+        ctx.check(len(oks) == 1, 'floor|%s|ok' % f.path, 'one Ok return', f, f.line)
+        ctx.guarded(f, oks, [ok('InternalTableDefinition::check_match_untyped')])
+        # each of the four observations reaches a test with a refusing arm that dominates Ok
+        for callee in ('Value::type_name', 'Value::fixed_width'):
+            cs = ctx.sites(f, callee, floor=2)
+        for callee, what in (('Value::type_name', 'type names'), ('Value::fixed_width', 'fixed widths')):
+            g = [Guard(call=callee, cmp=True)]
+            e = core.guard_edges(f, g)
+            ctx.check(len(e) >= 2, 'guard-missing|%s|%s' % (f.path, callee), 'check_match compares the %s of K and V' % what, f, f.line)
+        # key_matches / value_matches both required
+        for nm in ('key_matches', 'value_matches'):
+            ctx.guarded(f, oks, [Guard(place=nm, vals={'true'})], 'Ok only if %s' % nm)
+        # widths: Ok only via the non-refusing arm of each width comparison: cut each comparison's refusing edge -> still reachable; instead check the TypeDefinitionChanged errors exist for K and V
+        errs = sum(1 for b_ in f.blocks for s2 in b_['s'] if s2[0] == 'a' and s2[2]['k'] == 'agg' and s2[2]['v'] == 'TypeDefinitionChanged')
+        ctx.check(errs >= 2, 'floor|%s|width-errors' % f.path, 'both width mismatches are refused (TypeDefinitionChanged x%d)' % errs, f, f.line)
+        mism = sum(1 for b_ in f.blocks for s2 in b_['s'] if s2[0] == 'a' and s2[2]['k'] == 'agg' and s2[2]['v'] == 'TableTypeMismatch')
+        ctx.check(mism >= 1, 'floor|%s|type-mismatch' % f.path, 'type-name mismatch is refused', f, f.line)
+        for callee in ('InternalTableDefinition::private_get_fixed_key_size', 'InternalTableDefinition::private_get_fixed_value_size'):
+            e = core.guard_edges(f, [Guard(call=callee, cmp=True)])
+            okk = False
+            for ed in e:
+                r = core.reach(f, cut_edges={ed})
+                if not any(core.point_reached(f, r, o.bb, o.idx) for o in oks):
+                    okk = True
+            ctx.check(okk, 'guard|%s|%s' % (f.path, callee), 'Ok is control-dependent on the comparison of %s' % callee, f, f.line)
+    f = ctx.fn('InternalTableDefinition::check_match_untyped')
+    if f is not None:
+        oks = []
+        for i, b_ in enumerate(f.blocks):
+            for j, s2 in enumerate(b_['s']):
+                if s2[0] == 'a' and s2[1][0] == 0 and not s2[1][1] and s2[2]['k'] == 'agg' and s2[2]['v'] == 'Ok':
+                    oks.append(Point(f, i, j, 'return Ok', s2[3]))
+        e = core.guard_edges(f, [Guard(call='InternalTableDefinition::get_type', cmp=True), Guard(call='PartialEq::ne', vals={'false'}), Guard(call='PartialEq::eq', vals={'true'})])
+        okk = False
+        for ed in e:
+            r = core.reach(f, cut_edges={ed})
+            if oks and not any(core.point_reached(f, r, o.bb, o.idx) for o in oks):
+                okk = True
+        ctx.check(okk, 'guard|%s|kind' % f.path, 'Ok is control-dependent on the table kind comparison', f, f.line)
+    ctx.callers_eq('ReadOnlyTable::new', {'ReadTransaction::open_table', 'Database::check_repaired_allocated_pages_table', 'Database::visit_freed_tree'}, allow_missing={'Database::check_repaired_allocated_pages_table'})
+    ctx.callers_eq('ReadOnlyMultimapTable::new', {'ReadTransaction::open_multimap_table'})
+    ctx.callers_eq('Table::new', {'TableNamespace::open_table'})
+    ctx.callers_eq('MultimapTable::new', {'TableNamespace::open_multimap_table'})
+    ctx.set_rule('C17.R2', 'kind dispatch: the other kind is unreachable only because get_table was given the matching TableType')
+    for nm, want in (('open_table', 'Normal'), ('open_untyped_table', 'Normal'), ('open_multimap_table', 'Multimap'), ('open_untyped_multimap_table', 'Multimap')):
+        f = ctx.fn('ReadTransaction::' + nm)
+        if f is not None:
+            g = ctx.sites(f, ['TableTree::get_table', 'TableTree::get_table_untyped'], exact=1)
+            for p in g:
+                term = core.sym(f).operand(p.call.t['a'][2])
+                v = term[2] if term[0] == 'agg' else None
+                ctx.check(v == want, 'const|%s|table-type' % f.path, '%s asks the catalog for TableType::%s (found %s)' % (nm, want, v), f, p.line)
+    for nm, want in (('open_table', 'Normal'), ('open_multimap_table', 'Multimap')):
+        f = ctx.fn('TableNamespace::' + nm)
+        if f is not None:
+            for p in ctx.sites(f, 'TableNamespace::inner_open', exact=1):
+                term = core.sym(f).operand(p.call.t['a'][2])
+                v = term[2] if term[0] == 'agg' else None
+                ctx.check(v == want, 'const|%s|table-type' % f.path, '%s opens with TableType::%s (found %s)' % (nm, want, v), f, p.line)
+    ctx.set_rule('C17.R3', 'a table is open at most once per transaction')
+    for nm, inner in (('inner_open', 'TableTreeMut::get_or_create_table'), ('inner_rename', 'TableTreeMut::rename_table'), ('inner_delete', 'TableTreeMut::delete_table')):
+        f = ctx.fn('TableNamespace::' + nm)
+        if f is not None:
+            t = ctx.sites(f, inner, exact=1)
+            ctx.guarded(f, t, [Guard(call='BTreeMap::get', vals={'None'})], 'catalog touched only if the table is not open')
+    f = ctx.fn('TableNamespace::inner_open')
+    if f is not None:
+        ins = ctx.sites(f, 'BTreeMap::insert', exact=1)
+        ctx.guarded(f, ins, [ok('TableTreeMut::get_or_create_table')])
+        cl = ctx.sites(f, 'TableTreeMut::clear_pending_table_update', exact=1)
+        ctx.must_pass(f, cl, what='opening takes the staged update out')
+        ctx.must_pass(f, ins, what='an opened table is recorded as open')
+    ctx.set_rule('C17.R4', 'delete releases storage, in a safe order')
+    f = ctx.fn('TableTreeMut::delete_table')
+    if f is not None:
+        vp = ctx.sites(f, 'InternalTableDefinition::visit_all_pages', exact=1)
+        rm = ctx.sites(f, 'BtreeMut::remove', exact=1)
+        fu = ctx.sites(f, PA + '::free_if_uncommitted', exact=1)
+        pu = ctx.sites(f, 'Vec::push', exact=1)
+        ctx.order(f, vp, rm, 'pages collected before the catalog entry is removed')
+        ctx.order(f, rm, fu + pu, 'nothing is released before the catalog removal')
+        ctx.guarded(f, fu + pu, [ok('BtreeMut::remove')], 'release only after the catalog removal succeeded')
+        ctx.guarded(f, pu, [false_of(PA + '::free_if_uncommitted')])
+        pr = ctx.sites(f, 'BTreeMap::remove', exact=1)
+        ctx.must_pass(f, pr, start=rm[0] if rm else None, what='the staged update of a deleted table is dropped')
+    ctx.set_rule('C17.R5', 'rename moves the definition and re-keys the staged update last')
+    f = ctx.fn('TableTreeMut::rename_table')
+    if f is not None:
+        rm = ctx.sites(f, 'BtreeMut::remove', exact=1)
+        ins = ctx.sites(f, 'BtreeMut::insert', exact=1)
+        rk = ctx.sites(f, 'BTreeMap::remove', exact=1)
+        ctx.order(f, rm, ins)
+        ctx.guarded(f, rk, [ok('BtreeMut::insert')], 'staged update re-keyed only after both catalog updates succeeded')
+        ge = ctx.sites(f, 'TableTreeMut::get_table_untyped', exact=1)
+        ctx.guarded(f, rm, [Guard(call='TableTreeMut::get_table_untyped', vals={'None'}), Guard(call='Option::is_some', vals={'false'})], 'no rename onto an existing table') if False else None
+        ctx.order(f, ge, rm, 'target name checked before anything is moved')
+    ctx.set_rule('C17.R6', 'staged roots: table handles re-stage on drop; a root swap clears staged updates')
+    for nm in ('<Table as Drop>::drop', '<MultimapTable as Drop>::drop'):
+        f = ctx.fn(nm)
+        if f is not None:
+            ctx.must_pass(f, ctx.sites(f, WT + '::close_table', exact=1), exits='any', what='dropping a table handle always closes it')
+    f = ctx.fn('TableTreeMut::set_root')
+    if f is not None:
+        ctx.must_pass(f, ctx.sites(f, 'BTreeMap::clear', exact=1), exits='any')
+    f = ctx.fn('TableNamespace::set_root')
+    if f is not None:
+        sr = ctx.sites(f, 'TableTreeMut::set_root', exact=1)
+        ctx.guarded(f, sr, [true_of('BTreeMap::is_empty')], 'root swapped only with no table open')
+
+
+# ------------------------------------------------------------------------------------ C06.R1 / R7
+def c06_r1_freed_merged(ctx):
+    ctx.set_rule('C06.R1', 'freed pages are never dropped on the floor: merged on every exit')
+    n = 0
+    for nm in ('insert', 'remove', 'pop_first', 'pop_last', 'insert_reserve', 'retain_in_bounds'):
+        f = ctx.fn('BtreeMut::' + nm)
+        if f is None:
+            continue
+        m = ctx.sites(f, 'btree::merge_freed_pages', exact=1)
+        # every path from the mutation to any exit passes the merge
+        muts = f.calls_to(['MutateHelper::insert', 'MutateHelper::delete', 'CursorMut::seek_to', 'CursorMut::remove_next', 'CursorMut::remove_prev', 'BtreeMut::retain_in_helper', 'Result::and_then'])
+        ctx.check(len(muts) >= 1, 'floor|%s|mutation' % f.path, 'the mutation call exists', f, f.line)
+        for c in muts:
+            ctx.must_pass(f, m, start=cpoint(c), exits='any', what='%s: every exit after the mutation merges the freed pages' % nm)
+        n += 1
+    ctx.check(n >= 6, 'floor|merge-sites', 'the 6 BtreeMut mutation entry points were analysed (found %d)' % n)
+    ctx.callers_eq('btree::merge_freed_pages', {'BtreeMut::insert', 'BtreeMut::remove', 'BtreeMut::pop_first', 'BtreeMut::pop_last', 'BtreeMut::insert_reserve', 'BtreeMut::retain_in_bounds'})
+    f = ctx.fn('btree::merge_freed_pages')
+    if f is not None:
+        ap = ctx.sites(f, 'Vec::append', exact=1)
+        ctx.guarded(f, ap, [false_of('Vec::is_empty')])
+        e_empty = core.guard_edges(f, [true_of('Vec::is_empty')])
+        ctx.must_pass(f, ap, exits='any', extra_cut_edges=e_empty, what='a non-empty private list is always appended')
+    # the fake freed list of insert_inplace must stay empty
+    f = ctx.fn('BtreeMut::insert_inplace')
+    if f is not None:
+        ie = [c for c in f.calls if c.matches('Vec::is_empty')]
+        ctx.check(len(ie) == 1 and any('m:assert' in x for x in (ie[0].t.get('x') or [])) or len(ie) == 1, 'floor|%s|assert-empty' % f.path, 'insert_inplace asserts that nothing was freed', f, f.line)
+    # cursor family
+    for nm in ('RangeMut::with_live_cursor',):
+        f = ctx.fn(nm)
+        if f is not None:
+            c = ctx.sites(f, 'CursorTree::cursor', exact=1)
+            d = ctx.sites(f, 'CursorTree::drain_freed', exact=1)
+            ctx.must_pass(f, d, start=c[0] if c else None, exits='any', what='every exit after obtaining a live cursor drains the freed pages')
+    f = ctx.fn('CursorTree::drain_freed')
+    if f is not None:
+        fu = ctx.sites(f, PA + '::free_if_uncommitted', floor=0)
+    ctx.callers_eq('CursorTree::cursor', {'RangeMut::seek_end', 'RangeMut::with_live_cursor'})
+
+
+def c06_r7_multimap(ctx):
+    ctx.set_rule('C06.R7', 'multimap subtree pages are released with the key')
+    f = ctx.fn('MultimapTable::remove_all')
+    if f is not None:
+        fc = ctx.sites(f, 'MultimapValue::from_collection_free_on_drop', exact=1)
+        it = ctx.sites(f, 'AllPageNumbersBtreeIter::new', exact=1)
+        for p in fc:
+            ctx.flows(f, p, 1, from_call='AllPageNumbersBtreeIter::new', what='the free-on-drop list is the subtree page walk')
+        for p in it:
+            ctx.flows(f, p, 0, from_call='DynamicCollection::as_subtree')
+        ctx.guarded(f, it, [Guard(call='DynamicCollection::collection_type', vals={'SubtreeV2'})])
+        rm = ctx.sites(f, 'BtreeMut::remove', exact=1)
+        ctx.guarded(f, fc, [Guard(call='BtreeMut::remove', vals={'Some'})])
+        # on the SubtreeV2 edge the walk is not skippable
+        vs = None
+        for a in ctx.facts.adts.values():
+            if a['p'].endswith('multimap_btree::DynamicCollectionType'):
+                vs = {v['n'] for v in a['variants']}
+        if vs:
+            e_other = core.guard_edges(f, [Guard(call='DynamicCollection::collection_type', vals=vs - {'SubtreeV2'})])
+            ct = ctx.sites(f, 'DynamicCollection::collection_type', exact=1)
+            ctx.must_pass(f, it, start=ct[0] if ct else None, extra_cut_edges=e_other, what='a removed subtree-backed key always has its pages walked')
+    f = ctx.fn('<MultimapValue as Drop>::drop')
+    if f is not None:
+        fu = ctx.sites(f, PA + '::free_if_uncommitted', exact=1)
+        pu = ctx.sites(f, 'Vec::push', exact=1)
+        tk = ctx.sites(f, 'mem::take', exact=1)
+        ctx.guarded(f, pu, [false_of(PA + '::free_if_uncommitted')])
+        ctx.order(f, tk, fu, 'own page references dropped before the pages are freed')
+        e_empty = core.guard_edges(f, [true_of('Vec::is_empty')])
+        ctx.must_pass(f, ctx.sites(f, 'Mutex::lock', exact=1), exits='any', extra_cut_edges=e_empty, what='a non-empty free-on-drop list is always processed')
+    f = ctx.fn('MultimapTable::remove')
+    if f is not None:
+        cf = ctx.sites(f, PA + '::conditional_free', exact=1)
+        ctx.check(len(cf) == 1, 'floor|%s|conditional_free' % f.path, 'the subtree-to-inline arm releases the old subtree root', f, f.line)
